@@ -13,7 +13,7 @@ BOUNDS = dict(quick='number of retained points k <= 6 (unwinding bound); curve l
 ASSUMPTIONS = ['reduced is strictly increasing, starts at 0, ends at n-1 (the property\'s precondition)',
                'points is modelled as an array whose slices have length min(stop,n)-min(start,n) (Python slicing); its values are irrelevant to these functions',
                'NumPy argsort of distinct integer keys is the sorting permutation']
-CONFIG = dict(quick=dict(budget_s=150, case_wall_s=120), thorough=dict(budget_s=1700, case_wall_s=1500))
+CONFIG = dict(quick=dict(budget_s=150, case_wall_s=120), thorough=dict(budget_s=900, case_wall_s=700))
 VALIDATE_PATHS = True
 
 
